@@ -758,6 +758,20 @@ struct LifecycleEngine : Engine
 			add("read", k_nc + 0, 0, 0, rng.pick(std::vector<int64_t>{7000000, 30000000}));
 			add("close", 0, 0, 0, rng.pick(std::vector<int64_t>{1000000, 7000000, 30000000}));
 		}
+		else if (cls < 0.50 && cls >= 0.40)
+		{
+			// two chained lookups on one resolver whose second completion coincides with a timer armed earlier: the only way
+			// to get a boundary between the resolver's timer firing and its completion running
+			int64_t const which = int64_t(rng.below(2));
+			bool const names_ab = rng.chance(0.7);
+			// a.example takes 30 ms, b.example 80 ms, unknown names 100 ms
+			int64_t const total = names_ab ? 110000000 : (rng.chance(0.5) ? 60000000 : 130000000);
+			add("timer", int64_t(rng.below(2)), total, 0, 0);
+			if (total == 110000000) { add("resolve", which, 0, 0, 0); add("resolve", which, 1, 0, 0); }
+			else if (total == 60000000) { add("resolve", which, 0, 0, 0); add("resolve", which, 0, 0, 0); }
+			else { add("resolve", which, 0, 0, 0); add("resolve", which, 3, 0, 0); }
+			if (rng.chance(0.5)) add("resolve", which, 2, 0, rng.pick(std::vector<int64_t>{0, 1000000}));
+		}
 		else if (cls < 0.40)
 		{
 			// a sender whose segments are tail-dropped one hop downstream, some time after they were sent
@@ -917,7 +931,7 @@ struct LifecycleEngine : Engine
 		return s + "evaluations = base scenarios; sub_executions (in fault_and_reach_counters) = individual executions. distinct = distinct shape hash of (boundaries, operations, interventions); "
 			"non-trivial = at least 10 interventions over at least 3 (intervention, object kind) pairs";
 	}
-	int64_t budget(std::string const& prop, int tier) const override { return prop == "C04" ? (tier ? 6000 : 180) : (tier ? 3000 : 80); }
+	int64_t budget(std::string const& prop, int tier) const override { return prop == "C04" ? (tier ? 6000 : 180) : (tier ? 3000 : 64); }
 	std::vector<std::string> stub_components() const override
 	{ return {"sim::configuration implementation (fw/net.hpp)", "tracked completion handlers, scripted scenario driver, intervention applier via the guarded step hook", "bystander transfer and timer"}; }
 	std::vector<std::string> assumptions(std::string const&) const override
